@@ -112,3 +112,139 @@ Theorem save_text_roundtrip_c05 : forall cx fuel out_enc e doc,
 Proof. exact save_text_roundtrip. Qed.
 Print Assumptions save_text_roundtrip_c05.
 
+(* =========================================================================================== *)
+(* The side conditions of save_text_roundtrip_c05 are INVARIANTS of every reachable state (Proofs/SaveTextReach.v) *)
+(* =========================================================================================== *)
+From Coq Require Import String Ascii List Bool ZArith Arith.
+From Bardic Require Import PyStr Value Compiled Engine EngineCheck EngineHooks StoryWfChoose Codec SaveLoad JsonText
+     SaveOutEnc SaveTextReach.
+Module Reach.
+(* C05 (addition) - the save document as TEXT, for every reachable state: the side conditions of
+   save_text_roundtrip_c05 (variables, hook table, @join table, displayed output are Python dicts) are invariants of
+   play.  Proofs: Proofs/SaveTextReach.v; the concrete encoder of the displayed output: Engine/SaveOutEnc.v. *)
+Import ListNotations.
+
+(* every state a history reaches (OpSave/OpLoad/OpReload included), from initial variables that are a Python dict,
+   with an author-code oracle that returns Python values: the engine's dictionaries have distinct keys at every depth *)
+Theorem reachable_state_is_python_data_c05 : forall orc ctxkeys st, orc_kd orc -> forall e slot,
+  played_kd orc ctxkeys st e slot ->
+  env_kd (vars (ec e)) /\ NoDup (map fst (hooks (ec e))) /\ NoDup (map fst (joinidx (ec e))) /\
+  (forall o, out (ec e) = Some o -> out_kd o).
+Proof. exact played_state_kd. Qed.
+Print Assumptions reachable_state_is_python_data_c05.
+
+Theorem reach_state_is_python_data_c05 : forall orc ctxkeys st, orc_kd orc -> forall e,
+  reach_kd orc ctxkeys st e ->
+  env_kd (vars (ec e)) /\ NoDup (map fst (hooks (ec e))) /\ NoDup (map fst (joinidx (ec e))).
+Proof. exact reach_state_kd. Qed.
+Print Assumptions reach_state_is_python_data_c05.
+
+(* the same for every restore point and for the content of the save slot *)
+Theorem restore_points_are_python_data_c05 : forall orc ctxkeys st, orc_kd orc -> forall e slot,
+  played_kd orc ctxkeys st e slot ->
+  Forall core_kd (undo_stack e) /\ Forall core_kd (redo_stack e) /\ (forall c, slot = Some c -> core_kd c).
+Proof. exact played_stacks_kd. Qed.
+Print Assumptions restore_points_are_python_data_c05.
+
+(* the concrete encoder of the displayed output writes distinct keys at every depth *)
+Theorem out_enc_std_keys_distinct_c05 : forall cx fuel o,
+  ctx_kd cx -> out_kd o -> keys_distinct (out_enc_std cx fuel o).
+Proof. exact out_enc_std_kd. Qed.
+Print Assumptions out_enc_std_keys_distinct_c05.
+
+(* hence: the document of save_state() in ANY reachable state, written as text (either layout), reads back *)
+Theorem reachable_save_text_roundtrip_c05 : forall orc ctxkeys st, orc_kd orc -> forall cx fuel e doc,
+  ctx_kd cx -> reach_kd orc ctxkeys st e ->
+  save_json cx fuel (out_enc_std cx fuel) e = Some doc ->
+  loads (dumps doc) = Some (json_rt doc) /\ loads (dumps_indent2 doc) = Some (json_rt doc).
+Proof. exact reachable_save_text_roundtrip. Qed.
+Print Assumptions reachable_save_text_roundtrip_c05.
+
+Theorem played_save_text_roundtrip_c05 : forall orc ctxkeys st, orc_kd orc -> forall cx fuel e slot doc,
+  ctx_kd cx -> played_kd orc ctxkeys st e slot ->
+  save_json cx fuel (out_enc_std cx fuel) e = Some doc ->
+  loads (dumps doc) = Some (json_rt doc) /\ loads (dumps_indent2 doc) = Some (json_rt doc).
+Proof. exact played_save_text_roundtrip. Qed.
+Print Assumptions played_save_text_roundtrip_c05.
+
+(* the restricted notions are the usual ones with Python initial variables *)
+Theorem played_kd_is_played_c05 : forall orc ctxkeys st e slot,
+  played_kd orc ctxkeys st e slot -> played orc ctxkeys st e slot.
+Proof. exact played_kd_played. Qed.
+Print Assumptions played_kd_is_played_c05.
+Theorem reach_kd_is_reach_c05 : forall orc ctxkeys st e, reach_kd orc ctxkeys st e -> reach orc ctxkeys st e.
+Proof. exact reach_kd_reach. Qed.
+Print Assumptions reach_kd_is_reach_c05.
+
+(* ---- non-vacuity ---- *)
+Local Open Scope string_scope.
+Definition orc0 : pyorc :=
+  mkOrc (fun _ _ => Ok (VDict [("a", VInt 1)])) (fun ctx _ => Ok (set_key "x" (VList [VInt 1; VDict []]) ctx))
+        (fun _ _ => Ok "") (fun _ _ => Ok ([VInt 1], [("k", VInt 2)])).
+
+Example orc0_kd : orc_kd orc0.
+Proof.
+  constructor; simpl.
+  - intros ctx code v _ E. inversion E; subst. cbn. repeat split; try exact I. repeat constructor. intros [].
+  - intros ctx code ctx' H E. inversion E; subst. apply env_kd_vkd. apply env_kd_set; [|exact H].
+    cbn. repeat split; constructor.
+  - intros ctx a pos kw _ E. inversion E; subst. cbn. repeat split; try exact I.
+    repeat constructor; cbn; intros H; repeat (destruct H as [H|H]; [discriminate H|]); exact H.
+Qed.
+
+Definition demo_reach_story : story :=
+  mkStory "A"
+    [("A", mkPassage "A" []
+             [TText "hi "; TExpr "x"; TRender "card" "1, k=2" None; TInput [("name", "nm"); ("label", "Name")]]
+             [Choice [TText "go"] "B" "" None true 0 [] []; Choice [TText "on"] "@join" "" None false 1 [] [TPyStmt "y = 2"]]
+             [TPyStmt "x = 1"; THook true "turn_end" "H"] [] []);
+     ("B", mkPassage "B" [] [TText "bye"; TLoop "i" "xs" [TExpr "i"] []] [Choice [TText "back"] "A" "" None true 0 [] []] [] [] []);
+     ("H", mkPassage "H" [] [TText "tick"] [] [] [] [])] [] [].
+
+Definition demo_reach_state : estate :=
+  fst (step orc0 [] demo_reach_story
+         (fst (step orc0 [] demo_reach_story (fst (init orc0 [] demo_reach_story [("seen", VTuple [VInt 1])])) (OpChoose 0)))
+         (OpInput "nm" "Zed")).
+
+Example demo_reach_state_reachable : reach_kd orc0 [] demo_reach_story demo_reach_state.
+Proof.
+  unfold demo_reach_state. apply rk_step. apply rk_step.
+  destruct (init orc0 [] demo_reach_story [("seen", VTuple [VInt 1])]) as [e0 [o0|x]] eqn:E.
+  - eapply rk_init; [|exact E]. cbn. repeat split; try exact I. repeat constructor. intros [].
+  - vm_compute in E. discriminate E.
+Qed.
+
+Example demo_reach_saves :
+  exists doc, save_json [] 3 (out_enc_std [] 3) demo_reach_state = Some doc /\
+              loads (dumps doc) = Some (json_rt doc) /\ loads (dumps_indent2 doc) = Some (json_rt doc) /\
+              hooks (ec demo_reach_state) = [("turn_end", ["H"])] /\
+              map fst (vars (ec demo_reach_state)) = ["seen"; "_inputs"; "x"].
+Proof.
+  destruct (save_json [] 3 (out_enc_std [] 3) demo_reach_state) as [doc|] eqn:E.
+  - exists doc. split; [reflexivity|].
+    assert (Hcx : ctx_kd []) by (intros c f attrs H; cbn in H; discriminate H).
+    destruct (reachable_save_text_roundtrip_c05 orc0 [] demo_reach_story orc0_kd [] 3 demo_reach_state doc
+                Hcx demo_reach_state_reachable E) as [H1 H2].
+    split; [exact H1|]. split; [exact H2|]. vm_compute. split; reflexivity.
+  - vm_compute in E. discriminate E.
+Qed.
+
+(* the requirement on the initial variables is needed: the model type of environments also has lists that are not
+   Python dicts, and reach/played start from any of them *)
+Example initial_vars_python_dict_needed :
+  exists e, reach orc0 [] demo_reach_story e /\ ~ NoDup (map fst (vars (ec e))).
+Proof.
+  exists (fst (init orc0 [] demo_reach_story [("seen", VInt 1); ("seen", VInt 2)])). split.
+  - destruct (init orc0 [] demo_reach_story [("seen", VInt 1); ("seen", VInt 2)]) as [e0 [o0|x]] eqn:E.
+    + eapply reach_init. exact E.
+    + vm_compute in E. discriminate E.
+  - vm_compute. intros H. inversion H as [|a l Hn Hr]; subst. apply Hn. left. reflexivity.
+Qed.
+
+(* the third clause of orc_kd speaks of the whole argument dictionary because the model's parse_args appends the
+   keyword pairs to arg_0.. (Engine.parse_args), where Python assigns into one dict: "f(1, arg_0=2)" gives
+   {"arg_0": 2} in the implementation and a list with a repeated key in the model *)
+Example args_dict_clause_needed :
+  ~ NoDup (map fst (number_args 0 [VInt 1] ++ [("arg_0", VInt 2)])).
+Proof. vm_compute. intros H. inversion H as [|a l Hn Hr]; subst. apply Hn. left. reflexivity. Qed.
+End Reach.
